@@ -31,7 +31,28 @@ class Total(Harness):
         f = w.method('Zone', 'deserialise', mod='zones::deserialise') if self.which == 'zone' else w.method('Hosts', 'deserialise')
         r = ex.call_fn(f, [s])
         m = ex.get_model()
-        return {'cls': 'Ok' if r.variant == 0 else 'Err', 'sample': {'text': ''.join(chr(m.get(f'c{i}', 0x61)) for i in range(ln)), 'result': 'Ok' if r.variant == 0 else 'Err'}}
+        txt = ''.join(chr(m.get(f'c{i}', 0x61)) for i in range(ln)); cls = 'Ok' if r.variant == 0 else 'Err'
+        stubbed = any(k.startswith('parse_ok_') for k in m)     # outcome depends on the address-parser stub: not comparable natively
+        return {'cls': cls, 'vs': None if stubbed else (txt, cls), 'sample': {'text': txt, 'result': cls}}
+
+    def native_validate(self, world, vsamples):
+        import c03
+        rows = ',\n'.join('(%s, "%s")' % (rust_str(t), c) for t, c in vsamples)
+        call = 'Zone::deserialise(t).is_ok()' if self.which == 'zone' else 'Hosts::deserialise(t).is_ok()'
+        src = '''use super::*;
+#[test]
+fn replay() {
+    let cases: Vec<(&str, &str)> = vec![%s];
+    let mut bad = 0;
+    for (i, (t, want)) in cases.iter().enumerate() {
+        let got = if %s { "Ok" } else { "Err" };
+        if &got != want { bad += 1; println!("VERIF-MISMATCH case {i}: interpreter {want}, native {got}, text {t:?}"); }
+    }
+    println!("VERIF-CHECKED {} mismatches {}", cases.len(), bad);
+    assert!(bad == 0);
+}
+''' % (rows, call)
+        return c03.cross_validate(world, 'dns-types', ZD_RS if self.which == 'zone' else HD_RS, src, len(vsamples))
 
     def finding_key(self, v): return f"C17 {self.which} parser {v.get('tag')} {str(v.get('detail'))[:60]}"
 
@@ -114,4 +135,4 @@ def harnesses(world, tier, seed):
         TokenSeq(name='token-sequences', k=3 if q else 4, vocab=VOCAB, bounds={'tokens': '0..%d, each symbolic over a vocabulary of %d keywords / numbers / names / strings' % (3 if q else 4, len(VOCAB)), 'prefix': 'none | $ORIGIN | $ORIGIN + one record'}, expected_classes=('Ok', 'Err')),
         LongTokens(name='long-tokens', bounds={'templates': 10, 'sizes': [1, 11, 63, 64, 300]}, expected_classes=('zone-Ok', 'zone-Err')),
     ]
-    return hs, (420 if q else 2700), None
+    return hs, (1500 if q else 5400), None
